@@ -50,7 +50,9 @@ std::optional<sqf::runtime::fileio::pathinfo> sqf::fileio::impl_default::get_inf
 
     // Prepare local tree-node list
     std::vector<std::shared_ptr<path_element>> nodes;
+    std::vector<std::string> node_names; // the path segment that led to each node
     nodes.push_back(m_virtual_file_root);
+    node_names.push_back({});
 
 #if WIN32
     if (virt[0] != '/' && !(virt.length() >= 2 && virt[1] == ':'))
@@ -74,6 +76,7 @@ std::optional<sqf::runtime::fileio::pathinfo> sqf::fileio::impl_default::get_inf
                 if (nodes.back()->next.find(*it) != nodes.back()->next.end())
                 {
                     nodes.push_back(nodes.back()->next.at(*it));
+                    node_names.push_back(*it);
                     log(logmessage::fileio::ResolveVirtualNavigateDown(current.physical, virt, *it));
                 }
                 else
@@ -85,54 +88,67 @@ std::optional<sqf::runtime::fileio::pathinfo> sqf::fileio::impl_default::get_inf
         }
     }
 
-    // Explore further until we hit dead-end
+    // Normalise the request first: `.` and empty segments vanish, `..` takes back the segment in front of it
+    // (or moves up the nodes navigated so far). Only then the mapped prefix is looked up.
     {
+        std::vector<std::string> segments;
         std::istringstream stream_virt(virt);
-        auto it = std::istream_iterator<StringDelimiter<'/'>>{ stream_virt };
-        for (; it != std::istream_iterator<StringDelimiter<'/'>>{}; ++it)
+        for (auto it = std::istream_iterator<StringDelimiter<'/'>>{ stream_virt }; it != std::istream_iterator<StringDelimiter<'/'>>{}; ++it)
         {
-            if (it->empty()) { /* skip empty */ continue; }
-            if (*it == ".."s && !nodes.empty())
+            if (it->empty() || *it == "."s) { /* skip empty */ continue; }
+            if (*it == ".."s)
             {
-                // Move dir-up
-                nodes.pop_back();
-                log(logmessage::fileio::ResolveVirtualNavigateUp(current.physical, virt));
-            }
-            else
-            {
-                if (nodes.empty())
+                if (!segments.empty())
                 {
-                    log(logmessage::fileio::ResolveVirtualNavigateNoNodesLeftForExploring(current.physical, virt));
-                    break;
+                    segments.pop_back();
                 }
-                else if (nodes.back()->next.find(*it) == nodes.back()->next.end())
-                { /* Dead-End.  */
-                    log(logmessage::fileio::ResolveVirtualNavigateDeadEnd(current.physical, virt, *it));
-                    break;
-                }
-                else
+                else if (!nodes.empty())
                 {
-                    nodes.push_back(nodes.back()->next.at(*it));
-                    log(logmessage::fileio::ResolveVirtualNavigateDown(current.physical, virt, *it));
+                    // Move dir-up
+                    nodes.pop_back();
+                    node_names.pop_back();
+                    log(logmessage::fileio::ResolveVirtualNavigateUp(current.physical, virt));
                 }
+                continue;
             }
+            segments.push_back(*it);
         }
-
-        
         if (nodes.empty())
-        { /* Invalid path from our perspective. Return File-Not-Found. */
-
+        { /* Invalid path from our perspective (above the root). Return File-Not-Found. */
+            log(logmessage::fileio::ResolveVirtualNavigateNoNodesLeftForExploring(current.physical, virt));
             log(logmessage::fileio::ResolveVirtualFileNotFound(current.physical, virt));
             return {};
         }
 
-        // Set virtual to remaining and ensure no further dir-up occur
-        virt.clear();
-        for (; it != std::istream_iterator<StringDelimiter<'/'>>{}; ++it)
+        // Explore further until we hit dead-end
+        size_t index = 0;
+        for (; index < segments.size(); ++index)
         {
-            if (*it == ".."s) { /* skip dir-up */ continue; }
+            auto found = nodes.back()->next.find(segments[index]);
+            if (found == nodes.back()->next.end())
+            { /* Dead-End.  */
+                log(logmessage::fileio::ResolveVirtualNavigateDeadEnd(current.physical, virt, segments[index]));
+                break;
+            }
+            nodes.push_back(found->second);
+            node_names.push_back(segments[index]);
+            log(logmessage::fileio::ResolveVirtualNavigateDown(current.physical, virt, segments[index]));
+        }
+
+        // The remaining segments are taken below the physical directories of the node that was reached.
+        std::vector<std::string> remainder(segments.begin() + index, segments.end());
+        // The deepest node that actually has physical directories decides (nodes in between exist only as path to deeper mappings).
+        while (nodes.size() > 1 && nodes.back()->physical.empty())
+        {
+            remainder.insert(remainder.begin(), node_names.back());
+            nodes.pop_back();
+            node_names.pop_back();
+        }
+        virt.clear();
+        for (auto& segment : remainder)
+        {
             virt.append("/");
-            virt.append(*it);
+            virt.append(segment);
         }
         log(logmessage::fileio::ResolveVirtualGotRemainder(current.physical, virt));
     }
